@@ -45,8 +45,9 @@ class Actor:
 
 
 class Scheduler:
-    def __init__(self, schedule=None, max_decisions=20000, yield_filter=None):
+    def __init__(self, schedule=None, max_decisions=20000, yield_filter=None, step_cost=0.01):
         schedule = schedule or {}
+        self.step_cost = step_cost  # virtual seconds that pass per executed step (so that sleepers wake while others work)
         self.order = list(schedule.get("order", []))
         self.preempt = {int(i): int(j) for i, j in schedule.get("preempt", [])}
         self.actors = []
@@ -95,6 +96,7 @@ class Scheduler:
             return
         a.steps += 1
         self.global_steps += 1
+        self.now += self.step_cost
         self.log.append((self.decisions, a.idx, label, target))
         a.state = RUNNABLE
         self._park(a)
@@ -123,7 +125,7 @@ class Scheduler:
                 out.append(a)
             elif a.state == BLOCKED and a.blocked_on is not None and a.blocked_on.free_for(a):
                 out.append(a)
-            elif a.state == SLEEPING and (self.global_steps > a.sleep_mark or self.now >= a.wake_at):
+            elif a.state == SLEEPING and self.now >= a.wake_at:
                 out.append(a)
         return out
 
@@ -181,10 +183,6 @@ class Scheduler:
                         choice = self.current
                     else:
                         choice = sorted(awake, key=lambda a: order.index(a.idx))[0]
-                if choice.state == SLEEPING:
-                    self.now = max(self.now, choice.wake_at) if self.global_steps <= choice.sleep_mark else max(self.now, min(choice.wake_at, self.now + 0.001))
-                    # a sleeper woken because others made progress: time has at least moved on to its wake-up
-                    self.now = max(self.now, choice.wake_at)
                 if choice.state == BLOCKED:
                     choice.blocked_on = None
                 choice.state = RUNNABLE
